@@ -306,6 +306,10 @@ bounded_results = [{"what": "replay/C17.py (thorough tier, native): real primiti
 
 def replay(rec):
     from pyvc.replay import run_replay
+    oid = rec.get("id", "")
+    if "DIMSEServiceProvider.send_msg" in oid:
+        # the send_msg contract is shared with C15: its native harness drives the real send_msg
+        return run_replay("C15", dict(rec, id="C15/" + oid[len("C17/"):]))
     return run_replay("C17", rec)
 
 
